@@ -130,6 +130,26 @@ async def late_registration(validate=True):
         except BaseException as e: seen.append((type(e).__name__, f'id-{i}', False))
     return seen
 
+async def same_receiver_twice():
+    from taskiq import InMemoryBroker, TaskiqMiddleware, TaskiqDepends
+    from taskiq.receiver import Receiver
+    from taskiq.message import TaskiqMessage
+    from taskiq.abc.broker import AsyncBroker
+    AsyncBroker.global_task_registry = {}
+    ev = []
+    class MW(TaskiqMiddleware):
+        def pre_execute(self, message): ev.append(('pre_execute', message.task_id)); return message
+        async def post_execute(self, message, result): ev.append(('post_execute', message.task_id))
+        def post_save(self, message, result): ev.append(('post_save', message.task_id))
+    b = InMemoryBroker(); b.add_middlewares(MW())
+    def dep() -> str: return 'from-dependency'
+    async def t(x: int, d: str = TaskiqDepends(dep)): ev.append(('task', 'id-%d' % x, d))
+    b.register_task(t, task_name='t'); r = Receiver(b, max_async_tasks=2, run_startup=False)
+    for i in range(2):
+        try: await r.callback(b.formatter.dumps(TaskiqMessage(task_id=f'id-{i}', task_name='t', labels={}, labels_types=None, args=[i], kwargs={'d': 'explicit'})).message)
+        except BaseException as e: ev.append((type(e).__name__, f'id-{i}'))
+    return ev
+
 async def inmemory_failing_backend():
     from taskiq import InMemoryBroker
     from taskiq.abc.result_backend import AsyncResultBackend
@@ -318,6 +338,13 @@ def run(sc):
     if got != [('41', 'id-0', True), ('41', 'id-1', True)]:
         fails.append({'key': 'validate_params=False', 'config': {'validate_params': False, 'sent_args': ['41'], 'annotation': 'int'},
                       'failed_clauses': [f"C08: with parameter parsing disabled (Receiver(validate_params=False)) the argument '41' must arrive as sent; per delivery the task received {got}"], 'trace': [str(got)]})
+    got = asyncio.run(same_receiver_twice()); n += 1
+    want_ = [('pre_execute', 'id-0'), ('task', 'id-0', 'explicit'), ('post_execute', 'id-0'), ('post_save', 'id-0'), ('pre_execute', 'id-1'), ('task', 'id-1', 'explicit'), ('post_execute', 'id-1'), ('post_save', 'id-1')]
+    if got != want_:
+        cl = []
+        if [e for e in got if e[0] != 'task'] != [e for e in want_ if e[0] != 'task']: cl.append(f"C10: two messages through the SAME receiver: hooks observed {[e for e in got if e[0] != 'task']}, expected every hook once per message")
+        if [e for e in got if e[0] == 'task'] != [e for e in want_ if e[0] == 'task']: cl.append(f"C08: a parameter that has a dependency default was bound explicitly by the caller (kwargs={{'d': 'explicit'}}); the task received {[e for e in got if e[0] == 'task']}")
+        fails.append({'key': 'same-receiver-twice', 'config': {'messages': 2, 'kwargs': {'d': 'explicit'}}, 'failed_clauses': cl or [f"C10: unexpected trace {got}"], 'trace': [str(got)]})
     got = asyncio.run(inmemory_failing_backend()); n += 1
     if got != ['sent', 'sent', 'ran:1', 'ran:2']:
         fails.append({'key': 'inmemory-failing-backend', 'config': {'broker': 'InMemoryBroker(await_inplace=True)', 'result backend': 'set_result raises'},
